@@ -3,6 +3,7 @@ import Regatta.Driver.KeyMode
 import Regatta.Driver.ViewMode
 import Regatta.Driver.FsmMode
 import Regatta.Driver.LogMode
+import Regatta.Driver.MetaMode
 /-
   Model driver: one operation per input line, one answer per output line.
   usage: driver <mode> < ops.txt > model.txt
@@ -25,6 +26,8 @@ def main (args : List String) : IO UInt32 := do
   | ["view"] => loop stdin stdout Driver.ViewMode.step ({} : Driver.ViewMode.St)
   | ["fsm"] => loop stdin stdout Driver.FsmMode.step ({} : Driver.FsmMode.St)
   | ["log"] => loop stdin stdout Driver.LogMode.step ({} : Driver.LogMode.St)
+  | ["meta"] => loop stdin stdout Driver.MetaMode.step ([] : Driver.MetaMode.St)
+  | ["catalog"] => loop stdin stdout Driver.MetaMode.cstep ({} : Driver.MetaMode.CSt)
   | _ => IO.eprintln "usage: driver <mode>"; return 2
   stdout.flush
   return 0
